@@ -120,6 +120,12 @@ fn main() {
     let mut total = explore_tree(&pairs, run.threads);
     total.merge(explore_tree(&pairs_m, run.threads));
     total.merge(explore_tree(&trend, run.threads));
+    {
+        let mut t = Ctx::new();
+        check_structured_pairs(&pairs, !run.quick(), &mut t);
+        total.merge(t);
+        total.merge(check_structured_par(&trend, !run.quick(), 1, run.threads));
+    }
     total.merge(par_items(&col_items, run.threads, |(y, x), ctx| {
         ctx.states += 1;
         ctx.transitions += 1;
